@@ -146,7 +146,8 @@ def run():
     chk.sample({"argv": groups_meta[0]["argv"], "observations": [{k: o[k] for k in ("how", "v")} for o in groups[0]]})
     # (b) purity and repeated calls in one process -----------------------------------------------------------
     cases = corpus.gen_cases("random", 250 if t == "quick" else 4000, 7) + corpus.gen_cases("skewed", 60 if t == "quick" else 600, 7) \
-        + corpus.gen_cases("xml", 60 if t == "quick" else 600, 7) + corpus.gen_cases("mset", 40 if t == "quick" else 400, 7)
+        + corpus.gen_cases("xml", 60 if t == "quick" else 600, 7) + corpus.gen_cases("mset", 40 if t == "quick" else 400, 7) \
+        + corpus.gen_cases("repeatstr", 1500 if t == "quick" else 12000, 7)
     with ctx.Pool(min(16, os.cpu_count() or 4), initializer=_init, maxtasksperchild=300) as pool:
         pur = pool.map(_purity_job, [(c, 7) for c in cases], chunksize=8)
     verdicts, st = functional.validate_groups(pur, name="C07-purity")
